@@ -9,7 +9,7 @@ use rustzx_core::host::{Snapshot, SnapshotRecorder};
 use serde_json::json;
 
 const PROG: u16 = 0x9000;
-const OUTCODE: u16 = 0x8800;
+pub const OUTCODE: u16 = 0x8800;
 
 /// observer program run after the restore: touches every register pair, both register sets,
 /// index registers, the stack, I/R, and memory
@@ -69,13 +69,13 @@ fn marker(bank: u8, off: usize, salt: u8) -> u8 {
     ((off as u32).wrapping_mul(11) + (off as u32 >> 8) * 5 + bank as u32 * 37 + salt as u32) as u8
 }
 
-fn machine(m128: bool) -> Emu {
+pub fn machine(m128: bool) -> Emu {
     let mut o = Opts::machine(m128);
     o.sound = false;
     rig::emu_stepping(&o)
 }
 
-fn fill_ram(e: &mut Emu, m128: bool, salt: u8) {
+pub fn fill_ram(e: &mut Emu, m128: bool, salt: u8) {
     if m128 {
         for b in 0..8u8 {
             rig::cpu_out(e, OUTCODE, 0x7FFD, b);
@@ -142,7 +142,7 @@ fn build_saver(s: &SaveState) -> Emu {
     e
 }
 
-fn all_ram(e: &Emu, m128: bool) -> Vec<Vec<u8>> {
+pub fn all_ram(e: &Emu, m128: bool) -> Vec<Vec<u8>> {
     let n = if m128 { 8 } else { 3 };
     (0..n).map(|b| e.verif_ram_bank(b).to_vec()).collect()
 }
@@ -159,7 +159,7 @@ fn sna_carried(v: &RegsView) -> RegsView {
     x
 }
 
-fn diff_regs(a: &RegsView, b: &RegsView) -> Vec<&'static str> {
+pub fn diff_regs(a: &RegsView, b: &RegsView) -> Vec<&'static str> {
     let mut d = Vec::new();
     macro_rules! f {
         ($n:ident, $s:expr) => {
